@@ -103,15 +103,21 @@ static void out_frame(const RPMaybeFrame *mf)
 }
 
 /* one receive/process/free round; prints: rc errid frame | backend calls | prc reply */
+/* one RPMaybeFrame per session, reused from round to round like a caller's receive loop does: what a failing call leaves
+   in it is part of what the caller sees */
+static RPMaybeFrame g_mf;
+
 static void rp_round(RegP *p, hsnk *sk, halloc *ha)
 {
-    RPMaybeFrame mf;
+#define mf g_mf
     size_t before = sk->len;
     int rc = regp_recv(p, &mf);
     out_rc(rc < 0 ? rc : 0);
     if (rc < 0) {
-        /* channel error: nothing is handed out */
-        out_s("-"); out_s("-"); out_s("|"); out_s("|"); out_n(0);
+        /* channel error: nothing is handed out - no error id, no frame (a pointer left over from an earlier round would be
+           processed and released a second time by the caller's loop) */
+        if (mf.error.id) out_s(errname(mf.error.id)); else out_s("-");
+        out_s(mf.frame == NULL ? "-" : "STALE-FRAME"); out_s("|"); out_s("|"); out_n(0);
     } else {
         if (mf.error.id) out_s(errname(mf.error.id)); else out_n(0);
         out_frame(&mf);
@@ -123,6 +129,7 @@ static void rp_round(RegP *p, hsnk *sk, halloc *ha)
     }
     out_h(sk->got + before, sk->len - before);
     out_n(ha->allocs); out_n(ha->frees); out_n(ha->bad_frees);
+#undef mf
 }
 
 void run_rp(const char *op)
@@ -162,6 +169,7 @@ void run_rp(const char *op)
         halloc ha; BlockAllocator ba; ha_make(&ha, &ba, (size_t)bs, corrupt ? -1 : 4);
         g_be.arg = 6; g_be.pos = 0; g_be.mem16 = mem16;
         RegP p; rp_setup(&p, serial, mem16, src, snk, &ba);
+        memset(&g_mf, 0, sizeof g_mf);
         int rounds = 0;
         while (ss.pos < ss.len && rounds < 64) {
             out_s("#");
